@@ -1311,9 +1311,11 @@ class SmallStream(Stream):
         return (case["op"], case["s"])
 
 
+import c18t2      # noqa: E402  (needs the definitions above)
+
 PROPERTY = Property(
     pid="C18",
-    streams=[SmallStream(), CheckerStream(), SimplifyStream2(), TreeStream(), OutputStream(), BoundaryStream(), SpdxE2EStream()],
+    streams=[SmallStream(), CheckerStream(), SimplifyStream2(), TreeStream(), OutputStream(), BoundaryStream(), SpdxE2EStream()] + c18t2.STREAMS,
     assumptions=[
         "stream spdx-e2e: the composed model (Model/SpdxE2E.lean) receives the tree itself (bytes of every regular file) and computes walk, "
         "own source, REUSE.toml chain, extraction, attribution, file reports, LICENSES/ entries and their decoded texts, and the document; "
